@@ -14,6 +14,7 @@ Decided:
   R03.8  the effort credited for a slot is pure arithmetic over the booked seconds and the efficiency:
          no rounding / truncation call on the way from book() to doneEffort
   R03.9  the unused part of the final slot is released in both scheduling directions
+  R03.10 the amount booked per team member is bounded by a team-wide quantity (known finding F43)
 Not decided: sum = effort to one second (float rounding).
 """
 from __future__ import annotations
@@ -165,6 +166,21 @@ def run(ctx: Ctx):
                    "members booked are the stored selection" if ok else "booking loop does not iterate the stored selection",
                    key=key_of("R03.2", brs, None, "loop source"))
 
+    # alternatives are candidates: whenever the alternative list is returned it has been narrowed to ONE candidate
+    gsel = cfg_of(sel)
+
+    def narrows(n):
+        return n.kind == "stmt" and isinstance(n.ast, ast.Assign) and norm(n.ast.targets[0]) == "alternative_resources" \
+            and isinstance(n.ast.value, ast.List) and len(n.ast.value.elts) == 1
+    for r in returns(sel):
+        if r.value is None or norm(r.value) != "alternative_resources":
+            continue
+        ok = gsel.all_paths_pass(gsel.entry, gsel.node_of(r), narrows)
+        ctx.ob("R03.2", f"{sel.qual}: return alternative_resources is a single candidate", (sel, r), ok,
+               "the alternatives are narrowed to the one candidate that completes the task first before they can be returned" if ok else
+               "the whole list of alternatives is returned and booked as a team: with `alternative r2, r3` both are booked for every "
+               "slot of the task instead of exactly one candidate",
+               key=key_of("R03.2", sel, None, "one alternative"))
     # ---------------------------------------------------------------- R03.3
     ws = heap_writes(ctx, brs, "doneEffort")
     for atoms, node, tgt in ws:
@@ -221,6 +237,19 @@ def run(ctx: Ctx):
 
     # ---------------------------------------------------------------- R03.6
     booking_guard_rule(ctx, "R03.6")
+    # ---------------------------------------------------------------- R03.10 a team books the same amount on every member
+    # book() takes whatever is left in the member's slot; members whose slots are differently full (one shares its slot with
+    # another task) are then booked for different amounts while the maximum is credited.  Necessary for "all members for
+    # exactly the same instants": the amount booked per member is bounded by a quantity computed over the whole team.
+    for c in calls_named(brs, "bookResource"):
+        extra = [a for a in list(c.args[1:]) + [k.value for k in c.keywords]]
+        common = any("call:getAvailableSecondsInSlot" in full(fd.deps_of(a)) for a in extra)
+        ctx.ob("R03.10", f"{brs.qual}: {norm(c)} books a team-wide amount", (brs, c), common,
+               "the member bookings are bounded by the time all members have left in the slot" if common else
+               "each member books whatever is left in its own slot: when one member shares the slot with another task the members of a team "
+               "work different amounts in that slot, and the larger one is credited",
+               key="R03.10|TaskScenario.bookResources|team amount")
+    ctx.floor("R03.10", 1)
     # ---------------------------------------------------------------- R03.8 credited effort is not rounded
     ROUNDERS = {"round", "int", "floor", "ceil", "trunc", "quantize", "rint", "divmod"}
     chain = [brs, br, repo.func("ResourceScenario.book"), repo.func("ResourceScenario.getAvailableSecondsInSlot")]
@@ -246,7 +275,7 @@ def run(ctx: Ctx):
     release_rules(ctx, "R03.9")
     ctx.floor("R03.9", 2)
     ctx.floor("R03.1", 5)
-    ctx.floor("R03.2", 5)
+    ctx.floor("R03.2", 7)
     ctx.floor("R03.3", 1)
     ctx.floor("R03.6", 1)
 
